@@ -23,6 +23,7 @@ inductive ISOp | mul | div | add | sub deriving DecidableEq, Repr
 
 inductive Stmt
   | new (x : Nat) (t : Term) (c : GQ)        -- x = Cls(t, c)
+  | zero (x : Nat)                           -- x = Cls()   (the zero operator, empty terms)
   | alias (x y : Nat)                        -- x = y
   | bin (x : Nat) (o : BinOp) (y z : Nat)    -- x = y o z
   | sbin (x : Nat) (o : SOp) (y : Nat) (c : GQ)  -- x = y o c  /  x = c o y
@@ -91,6 +92,7 @@ def fBin (f : Fam) : BinOp → Op → Op → Op
 /-- one statement; `Except` mirrors the Python exception kind -/
 def exec (f : Fam) (s : Store) : Stmt → Except Err Store
   | .new x t c => .ok (s.bindNew x (fMk f t c))
+  | .zero x => .ok (s.bindNew x [])
   | .alias x y =>
     match s.vars[y]? with
     | some (some id) => .ok ⟨s.vars.set x (some id), s.objs⟩
